@@ -24,129 +24,330 @@ fn frozen(src: &str, cfg: &[(String, String)], timeout: Duration) -> CliOut {
     run_cmd(&mut cmd, src.as_bytes(), timeout)
 }
 
-pub fn run(tier: &str, seed: u64, out: &Path) -> i32 {
-    let mut o = Outcome::new("C09", tier, seed);
-    let thorough = tier == "thorough";
-    let mut rng = Rng::new(seed ^ 0xc09);
-    let mut progs = corpus::programs(&["tests/target", "tests/source"]);
-    progs.retain(|p| !p.src.trim().is_empty());
+/// One comparison job: an element of the fixed universe under one released style edition.
+#[derive(Clone)]
+struct Elem {
+    /// `<universe element id>|se<edition index>`
+    id: String,
+    /// the element without the edition (for (a))
+    base: String,
+    edition: usize,
+    src: String,
+    cfg: Vec<(String, String)>,
+}
+
+struct Compared {
+    wt: pool::FmtOut,
+    /// None: the pinned release reports an error / timed out on this input (outside the quantifier)
+    pinned: Option<Vec<u8>>,
+}
+
+/// runs the working tree (in-process) and the pinned binary (batched by configuration) on the elements
+fn compare_all(elems: &[Elem], out: &Path, timeout: Duration) -> Vec<Compared> {
+    let jobs: Vec<Job> = elems.iter().map(|e| Job { src: e.src.clone(), cfg: e.cfg.clone(), file_lines: None }).collect();
+    let cur = pool::run_jobs(&jobs, jobs_n(), timeout);
+    let mut groups: std::collections::BTreeMap<String, Vec<usize>> = Default::default();
+    for (i, e) in elems.iter().enumerate() {
+        // a file on disk and a text on standard input differ for CR under newline_style=Auto, and an echoing
+        // input (inner skip attribute) goes to the process' stdout: those go one by one on standard input
+        let solo = e.src.contains('\r');
+        let key = if solo { format!("solo{}", i) } else { cfg_text(&e.cfg) };
+        groups.entry(key).or_default().push(i);
+    }
+    let mut glist: Vec<Vec<usize>> = vec![];
+    for (_, v) in groups {
+        for ch in v.chunks(400) {
+            glist.push(ch.to_vec());
+        }
+    }
+    let scratch = out.join("pinned");
+    let idx: Vec<usize> = (0..glist.len()).collect();
+    let fro: Vec<Vec<Option<Vec<u8>>>> = par_map(&idx, |gi| {
+        let ks = &glist[*gi];
+        let cfg = &elems[ks[0]].cfg;
+        let one = |k: &usize| {
+            let r = frozen(&elems[*k].src, cfg, timeout);
+            if r.code == Some(0) && !r.timed_out { Some(r.stdout) } else { None }
+        };
+        if ks.len() == 1 {
+            return vec![one(&ks[0])];
+        }
+        let srcs: Vec<&str> = ks.iter().map(|k| elems[*k].src.as_str()).collect();
+        match frozen_batch(&scratch.join(format!("g{}", gi)), &srcs, cfg, Duration::from_secs(120)) {
+            Some(v) => v.into_iter().map(Some).collect(),
+            None => ks.iter().map(one).collect(),
+        }
+    });
+    let _ = std::fs::remove_dir_all(&scratch);
+    let mut pinned: Vec<Option<Vec<u8>>> = vec![None; elems.len()];
+    for (gi, ks) in glist.iter().enumerate() {
+        for (n, k) in ks.iter().enumerate() {
+            pinned[*k] = fro[gi][n].clone();
+        }
+    }
+    cur.into_iter().zip(pinned.into_iter()).map(|(wt, pinned)| Compared { wt, pinned }).collect()
+}
+
+/// the text the working tree leaves for an element: an echoing input (inner skip attribute, disable_all_formatting) is
+/// printed on the process' stdout, not into the session's buffer: the text is the input
+fn wt_text<'a>(e: &'a Elem, c: &'a Compared) -> &'a str {
+    if c.wt.status == Status::Ok && c.wt.out.is_empty() { &e.src } else { &c.wt.out }
+}
+
+fn differs(e: &Elem, c: &Compared) -> Option<bool> {
+    let p = c.pinned.as_ref()?;
+    if c.wt.status == Status::Timeout {
+        return None;
+    }
+    // a batch run leaves an echoing input as it is; on standard input it is echoed: both are the input
+    Some(!(c.wt.status == Status::Ok && wt_text(e, c).as_bytes() == &p[..]))
+}
+
+/// the fixed universe of C09: the elements of C02's universe (fixtures x {base, 7 widths, every option single, 3 re-layouts})
+/// and of the boundary universe B (items x max_width 20..200), each under the four released style editions
+fn universe_elems(progs: &[corpus::Program]) -> (Vec<Elem>, Vec<crate::boundary::Item>) {
+    let mut progs: Vec<corpus::Program> = progs.to_vec();
     for p in progs.iter_mut() {
         p.cfg.retain(|(k, _)| k != "style_edition" && k != "version");
     }
-    // cases: (program, cfg)
-    let mut cases: Vec<(String, String, Vec<(String, String)>)> = vec![];
-    let singles: Vec<(String, String)> = option_singles().into_iter().filter(|(k, _)| k != "style_edition").collect();
-    let per_prog = if thorough { 6 } else { 1 };
-    for p in &progs {
-        cases.push((p.name.clone(), p.src.clone(), p.cfg.clone()));
-        for _ in 0..per_prog {
-            if !thorough && !rng.chance(1, 3) {
+    let mut v = vec![];
+    for c in crate::c02::universe(&progs) {
+        let fam = crate::c02::family_of(&c.id);
+        if fam == "style_edition" || fam == "version" {
+            continue;
+        }
+        for (k, e) in EDITIONS.iter().enumerate() {
+            v.push(Elem { id: format!("{}|se{}", c.id, e), base: c.id.clone(), edition: k, src: c.src.clone(), cfg: merge_cfg(&c.cfg, &[("style_edition".into(), e.to_string())]) });
+        }
+    }
+    let mut its = crate::boundary::items(&progs);
+    for it in its.iter_mut() {
+        it.cfg.retain(|(k, _)| k != "style_edition" && k != "version");
+    }
+    (v, its)
+}
+
+fn boundary_elems(it: &crate::boundary::Item, w: usize) -> Vec<Elem> {
+    let base = crate::boundary::elem_id(it, w);
+    EDITIONS.iter().enumerate().map(|(k, e)| Elem { id: format!("{}|se{}", base, e), base: base.clone(), edition: k, src: it.src.clone(), cfg: merge_cfg(&it.cfg, &[("max_width".into(), w.to_string()), ("style_edition".into(), e.to_string())]) }).collect()
+}
+
+pub fn run(tier: &str, seed: u64, out: &Path) -> i32 {
+    let mut o = Outcome::new("C09", tier, seed);
+    let thorough = tier == "thorough";
+    let sweep = tier == "sweep" || tier == "sweepb";
+    let mut rng = Rng::new(seed ^ 0xc09);
+    let mut progs = corpus::programs(&["tests/target", "tests/source"]);
+    progs.retain(|p| !p.src.trim().is_empty());
+    let (uni, its) = universe_elems(&progs);
+    let listed = crate::boundary::load_list("c09_fixdiff.txt");
+    let slow = crate::boundary::load_list("c02_boundary_dirty.txt");
+    let timeout = Duration::from_secs(if thorough || sweep { 30 } else { 10 });
+    let plan = crate::boundary::plan(&its, Duration::from_secs(10));
+    o.count_n("universe:elements (x 4 editions)", uni.len() as u64);
+    if sweep {
+        // measurement mode (not a registered check): prints every element on which the working tree differs from the
+        // pinned release.  `sweep`: the fixture universe; `sweepb`: the whole boundary universe.
+        let mut all: Vec<Elem> = vec![];
+        if tier == "sweep" {
+            all = uni.clone();
+        } else {
+            for (it, ws) in its.iter().zip(plan.iter()) {
+                if ws.is_empty() || slow.contains(&format!("{}|*", it.id)) {
+                    continue;
+                }
+                for w in 20..=200usize {
+                    all.extend(boundary_elems(it, w));
+                }
+            }
+        }
+        eprintln!("{} elements", all.len());
+        for chunk in all.chunks(200_000) {
+            let res = compare_all(chunk, out, timeout);
+            for (e, c) in chunk.iter().zip(res.iter()) {
+                if differs(e, c) == Some(true) {
+                    println!("{}", e.id);
+                }
+            }
+            eprintln!("chunk done");
+        }
+        return 0;
+    }
+    // ---- chosen elements
+    let mut chosen: Vec<Elem> = vec![];
+    let mut probes: Vec<Elem> = vec![];
+    {
+        let clean: Vec<&Elem> = uni.iter().filter(|e| !listed.contains(&e.id)).collect();
+        probes.extend(uni.iter().filter(|e| listed.contains(&e.id)).cloned());
+        if thorough {
+            chosen.extend(clean.iter().map(|e| (*e).clone()));
+        } else {
+            chosen.extend(clean.iter().filter(|e| e.base.ends_with("|base")).map(|e| (*e).clone()));
+            let rest: Vec<&&Elem> = clean.iter().filter(|e| !e.base.ends_with("|base")).collect();
+            for _ in 0..8000usize.min(rest.len()) {
+                chosen.push((**rng.pick(&rest)).clone());
+            }
+        }
+        // boundary family: the widths next to the lengths of the lines of the item's own output at max_width 200
+        let mut pairs: Vec<(usize, usize)> = vec![];
+        for (i, ws) in plan.iter().enumerate() {
+            if slow.contains(&format!("{}|*", its[i].id)) {
                 continue;
             }
-            let mut cfg = p.cfg.clone();
-            if rng.chance(2, 3) {
+            for w in ws {
+                pairs.push((i, *w));
+            }
+        }
+        o.count_n("bw:planned (item, width) pairs", pairs.len() as u64);
+        let take: Vec<(usize, usize)> = if thorough { pairs } else { (0..8000usize.min(pairs.len())).map(|_| *rng.pick(&pairs)).collect() };
+        for (i, w) in take {
+            for e in boundary_elems(&its[i], w) {
+                if listed.contains(&e.id) {
+                    probes.push(e);
+                } else {
+                    chosen.push(e);
+                }
+            }
+        }
+    }
+    o.count_n("cases", chosen.len() as u64);
+    let mut distinct = std::collections::HashSet::new();
+    let mut nontrivial = 0u64;
+    {
+        let res = compare_all(&chosen, out, timeout);
+        // (a) 2015 = 2018 = 2021 on the working tree, per base element
+        let mut by_base: std::collections::BTreeMap<&str, [Option<usize>; 4]> = Default::default();
+        for (i, e) in chosen.iter().enumerate() {
+            by_base.entry(e.base.as_str()).or_insert([None; 4])[e.edition] = Some(i);
+        }
+        for (base, ix) in &by_base {
+            if let (Some(a), Some(b), Some(c)) = (ix[0], ix[1], ix[2]) {
+                let r = [&res[a].wt, &res[b].wt, &res[c].wt];
+                if r.iter().any(|x| x.status == Status::Timeout) {
+                    o.count("a:timeout");
+                    continue;
+                }
+                o.count("a:compared");
+                let same = if r.iter().all(|x| x.status == Status::Ok) { r[0].out == r[1].out && r[1].out == r[2].out } else {
+                    let sts: Vec<String> = r.iter().map(|x| format!("{:?}", x.status).chars().take(12).collect()).collect();
+                    sts[0] == sts[1] && sts[1] == sts[2]
+                };
+                if !same {
+                    o.direct_failures.push(json!({"sig": "c09:editions-2015-2018-2021-differ", "what": "style editions 2015/2018/2021 give different text on the working tree", "program": base, "config": cfg_text(&chosen[a].cfg), "src": chosen[a].src, "out2015": r[0].out, "out2018": r[1].out, "out2021": r[2].out}));
+                }
+                if let Some(d) = ix[3] {
+                    if res[c].wt.out != res[d].wt.out {
+                        nontrivial += 1;
+                    }
+                }
+            }
+        }
+        // (b) working tree vs pinned release
+        for (e, c) in chosen.iter().zip(res.iter()) {
+            match differs(e, c) {
+                None => o.count(if c.pinned.is_none() { "b:pinned-reports-error" } else { "b:timeout" }),
+                Some(d) => {
+                    o.count(if e.base.contains("|bw") { "bw:compared" } else { "b:compared" });
+                    distinct.insert(e.id.clone());
+                    if d {
+                        o.direct_failures.push(json!({"sig": "c09:differs-from-pinned-release", "what": format!("style edition {}: the working tree's text differs from the pinned release's", EDITIONS[e.edition]), "program": e.id, "config": cfg_text(&e.cfg), "edition": EDITIONS[e.edition], "src": e.src, "pinned": String::from_utf8_lossy(c.pinned.as_ref().unwrap()), "working_tree": wt_text(e, c), "working_tree_status": format!("{:?}", c.wt.status)}));
+                    }
+                }
+            }
+        }
+        for (e, _) in chosen.iter().zip(res.iter()).take(3) {
+            o.sample(json!({"element": e.id, "config": cfg_text(&e.cfg), "src_bytes": e.src.len()}));
+        }
+    }
+    // ---- the listed elements (differences that follow from the repairs made during this audit): one enumerated probe
+    {
+        let res = compare_all(&probes, out, timeout);
+        let mut bad = 0;
+        let mut ex = String::new();
+        for (e, c) in probes.iter().zip(res.iter()) {
+            if differs(e, c) == Some(true) {
+                bad += 1;
+                if ex.is_empty() {
+                    ex = e.id.clone();
+                }
+            }
+        }
+        o.probes.push(json!({"id": "c09-fixdiff", "fails": bad > 0, "what": format!("{} of the {} listed elements reached by this run differ from the pinned release, e.g. {}", bad, probes.len(), ex)}));
+    }
+    // ---- generated import / mod / extern crate groups over an identifier universe aimed at the ordering code
+    {
+        let singles: Vec<(String, String)> = option_singles().into_iter().filter(|(k, _)| k != "style_edition").collect();
+        let import_opts: Vec<(String, String)> = singles.iter().filter(|(k, _)| k.starts_with("imports_") || k == "group_imports" || k.starts_with("reorder_")).cloned().collect();
+        let mut gen: Vec<Elem> = vec![];
+        for k in 0..(if thorough { 4000 } else { 600 }) {
+            let src = import_program(&mut rng);
+            let mut cfg: Vec<(String, String)> = vec![];
+            if rng.chance(1, 2) {
+                let (a, b) = rng.pick(&import_opts).clone();
+                cfg.push((a, b));
+            }
+            if rng.chance(1, 4) {
                 cfg = merge_cfg(&cfg, &[("max_width".into(), rng.pick(WIDTHS_QUICK).to_string())]);
             }
-            if rng.chance(2, 3) {
-                let (k, v) = rng.pick(&singles).clone();
-                // options that contain a comma in --config would need escaping; none in the table
-                cfg = merge_cfg(&cfg, &[(k, v)]);
+            for (n, e) in EDITIONS.iter().enumerate() {
+                gen.push(Elem { id: format!("gen-imports{}|se{}", k, e), base: format!("gen-imports{}", k), edition: n, src: src.clone(), cfg: merge_cfg(&cfg, &[("style_edition".into(), e.to_string())]) });
             }
-            let src = if rng.chance(1, 4) { relayout(&p.src, &mut rng.fork()) } else { p.src.clone() };
-            cases.push((p.name.clone(), src, cfg));
         }
-    }
-    // generated import / mod / extern crate groups over an identifier universe aimed at the ordering code
-    let import_opts: Vec<(String, String)> = singles.iter().filter(|(k, _)| k.starts_with("imports_") || k == "group_imports" || k.starts_with("reorder_")).cloned().collect();
-    for k in 0..(if thorough { 4000 } else { 600 }) {
-        let src = import_program(&mut rng);
-        let mut cfg: Vec<(String, String)> = vec![];
-        if rng.chance(1, 2) {
-            let (a, b) = rng.pick(&import_opts).clone();
-            cfg.push((a, b));
-        }
-        if rng.chance(1, 4) {
-            cfg = merge_cfg(&cfg, &[("max_width".into(), rng.pick(WIDTHS_QUICK).to_string())]);
-        }
-        cases.push((format!("gen-imports{}", k), src, cfg));
-    }
-    o.count_n("cases", cases.len() as u64);
-    // current tree, in-process, every released edition
-    let mut jobs = vec![];
-    for (_, src, cfg) in &cases {
-        for e in EDITIONS {
-            jobs.push(Job { src: src.clone(), cfg: merge_cfg(cfg, &[("style_edition".into(), e.into())]), file_lines: None });
-        }
-    }
-    let timeout = Duration::from_secs(if thorough { 30 } else { 10 });
-    let cur = pool::run_jobs(&jobs, jobs_n(), timeout);
-    let fro: Vec<CliOut> = par_map(&jobs, |j| frozen(&j.src, &j.cfg, timeout));
-    let mut nontrivial = 0u64;
-    let mut distinct = std::collections::HashSet::new();
-    for (ci, (name, src, cfg)) in cases.iter().enumerate() {
-        let r = &cur[ci * 4..ci * 4 + 4];
-        let f = &fro[ci * 4..ci * 4 + 4];
-        // (a) 2015 = 2018 = 2021 on the working tree
-        let ok3 = r[..3].iter().all(|x| x.status == Status::Ok);
-        if ok3 {
-            o.count("a:compared");
-            if !(r[0].out == r[1].out && r[1].out == r[2].out) {
-                o.direct_failures.push(json!({"sig": "c09:editions-2015-2018-2021-differ", "what": "style editions 2015/2018/2021 give different text on the working tree", "program": name, "config": cfg_text(cfg), "src": src, "out2015": r[0].out, "out2018": r[1].out, "out2021": r[2].out}));
-            }
-        } else if r[..3].iter().any(|x| x.status == Status::Timeout) {
-            o.count("a:timeout");
-        } else {
-            let sts: Vec<String> = r[..3].iter().map(|x| format!("{:?}", x.status).chars().take(12).collect()).collect();
-            if !(sts[0] == sts[1] && sts[1] == sts[2]) {
-                o.direct_failures.push(json!({"sig": "c09:editions-2015-2018-2021-differ", "what": "style editions 2015/2018/2021 end differently on the working tree", "program": name, "config": cfg_text(cfg), "src": src, "statuses": sts}));
-            }
-            o.count("a:not-ok");
-        }
-        // (b) working tree vs frozen binary
-        for k in 0..4 {
-            let key = format!("{}|{}|{}", src.len(), cfg_text(cfg), k);
-            if f[k].timed_out || r[k].status == Status::Timeout {
-                o.count("b:timeout");
-                continue;
-            }
-            if f[k].code != Some(0) {
-                o.count("b:pinned-reports-error");
-                continue;
-            }
-            let echoed = r[k].status == Status::Ok && r[k].out.is_empty() && !f[k].stdout.is_empty();
-            if echoed {
-                // inner skip attribute / disable_all_formatting on stdin: the input is echoed on the
-                // process' stdout, which the in-process session does not capture
-                o.count("b:echo");
-                if f[k].stdout != src.as_bytes() {
-                    o.count("b:echo-differs-from-input");
+        let res = compare_all(&gen, out, timeout);
+        for (i, (e, c)) in gen.iter().zip(res.iter()).enumerate() {
+            if e.edition == 0 {
+                let r = [&res[i].wt, &res[i + 1].wt, &res[i + 2].wt];
+                if r.iter().all(|x| x.status == Status::Ok) {
+                    o.count("a:compared");
+                    if !(r[0].out == r[1].out && r[1].out == r[2].out) {
+                        o.direct_failures.push(json!({"sig": "c09:editions-2015-2018-2021-differ", "what": "style editions 2015/2018/2021 give different text on the working tree", "program": e.base, "config": cfg_text(&e.cfg), "src": e.src, "out2015": r[0].out, "out2018": r[1].out, "out2021": r[2].out}));
+                    }
+                    if res[i + 2].wt.out != res[i + 3].wt.out {
+                        nontrivial += 1;
+                    }
                 }
-                continue;
             }
-            o.count("b:compared");
-            let same = r[k].status == Status::Ok && r[k].out.as_bytes() == &f[k].stdout[..];
-            if r[2].out != r[3].out {
-                nontrivial += 1;
+            if let Some(d) = differs(e, c) {
+                o.count("b:compared");
+                distinct.insert(e.id.clone());
+                if d {
+                    o.direct_failures.push(json!({"sig": "c09:differs-from-pinned-release", "what": format!("style edition {}: the working tree's text differs from the pinned release's", EDITIONS[e.edition]), "program": e.id, "config": cfg_text(&e.cfg), "edition": EDITIONS[e.edition], "src": e.src, "pinned": String::from_utf8_lossy(c.pinned.as_ref().unwrap()), "working_tree": wt_text(e, c), "working_tree_status": format!("{:?}", c.wt.status)}));
+                }
             }
-            distinct.insert(key);
-            if !same {
-                o.direct_failures.push(json!({"sig": "c09:differs-from-pinned-release", "what": format!("style edition {}: the working tree's text differs from the pinned release's", EDITIONS[k]), "program": name, "config": cfg_text(cfg), "edition": EDITIONS[k], "src": src, "pinned": String::from_utf8_lossy(&f[k].stdout), "working_tree": r[k].out, "working_tree_status": format!("{:?}", r[k].status)}));
-            }
-        }
-        if ci < 3 {
-            o.sample(json!({"program": name, "config": cfg_text(cfg), "src_bytes": src.len(), "out2021_eq_out2024": r[2].out == r[3].out}));
         }
     }
-    o.count_n("cases_where_2021_and_2024_differ(x editions)", nontrivial);
-    o.notes.push("non-trivial case = one (program, config, edition) comparison against the frozen binary; the distribution counts how many cases actually exercise a gate (2021 output differs from 2024 output)".into());
-    // account the direct comparisons as evaluations
-    let evals = o.distribution.get("b:compared").copied().unwrap_or(0) + o.distribution.get("a:compared").copied().unwrap_or(0);
+    o.count_n("cases_where_2021_and_2024_differ", nontrivial);
+    o.notes.push("fixed universe: C02's universe (fixtures x {base, 7 widths, every option single, 3 name-seeded re-layouts}) and the boundary universe (items x max_width 20..200), each element under the four released style editions; the elements on which the working tree differs from the pinned release because of the repairs made during this audit are enumerated in corpus/c09_fixdiff.txt and run as probe c09-fixdiff; thorough runs every other element of the fixture universe and every planned boundary pair, quick every base element, 8000 seeded other elements and 8000 seeded boundary pairs; plus generated import groups".into());
+    let evals = o.distribution.get("b:compared").copied().unwrap_or(0) + o.distribution.get("a:compared").copied().unwrap_or(0) + o.distribution.get("bw:compared").copied().unwrap_or(0);
     o.count_n("evaluations_direct", evals);
     o.direct_evals = evals;
     o.direct_distinct = distinct.len() as u64;
+    o.exhaustive = thorough;
     o.finish(out, jobs_n())
 }
 
 fn jobs_n() -> usize {
     jobs()
 }
+
+/// the pinned binary on a batch of files that share one configuration: `--emit files` on scratch copies.
+/// Returns None for the whole batch when the run did not end with status 0 (the caller then runs them one by one).
+fn frozen_batch(dir: &Path, srcs: &[&str], cfg: &[(String, String)], timeout: Duration) -> Option<Vec<Vec<u8>>> {
+    let _ = std::fs::remove_dir_all(dir);
+    std::fs::create_dir_all(dir).ok()?;
+    let mut cmd = Command::new("/verif/frozen/rustfmt-pinned");
+    cmd.current_dir(dir).arg("--config-path").arg("/verif/frozen/empty.toml").arg("--emit").arg("files");
+    if !cfg.is_empty() {
+        cmd.arg("--config").arg(cfg_text(cfg));
+    }
+    for (i, s) in srcs.iter().enumerate() {
+        let f = dir.join(format!("i{}.rs", i));
+        std::fs::write(&f, s).ok()?;
+        cmd.arg(format!("i{}.rs", i));
+    }
+    let r = run_cmd(&mut cmd, b"", timeout);
+    let res = if r.code == Some(0) && !r.timed_out { (0..srcs.len()).map(|i| std::fs::read(dir.join(format!("i{}.rs", i))).ok()).collect::<Option<Vec<_>>>() } else { None };
+    let _ = std::fs::remove_dir_all(dir);
+    res
+}
+
